@@ -1,7 +1,7 @@
 (* C01 - property theorems only (proofs in Lang/*.v, C01/ArithPaths.v, C01/CoreLemmas.v).
    Ref = the fuelled reference interpreter [Lang.Sem.eval/exec] and [Lang.Print.run]. *)
 From Coq Require Import List ZArith Bool Arith.
-From Cb Require Import Lang.Syntax Lang.Sem Lang.Respect Lang.Theorems Lang.Print Lang.FuelMono C01.ArithPaths C01.CoreLemmas.
+From Cb Require Import Lang.Syntax Lang.Sem Lang.Respect Lang.Theorems Lang.Print Lang.FuelMono C01.ArithPaths C01.CoreLemmas C01.Structs.
 Import ListNotations.
 Local Open Scope Z_scope.
 
@@ -106,6 +106,58 @@ Theorem compound_desugar_equiv_element : forall funcs k x i o e s,
   exec funcs (S (S (S (S k)))) (SAssign (LIdx x [ENum i]) None (EBin o (EIdx x [ENum i]) e)) s.
 Proof. exact compound_desugar_elem. Qed.
 Print Assumptions compound_desugar_equiv_element.
+
+(* ---- plain structs: a struct variable is the group of its member cells [mkey x j] ---- *)
+Theorem struct_members_are_distinct_cells : forall x j x' j', (j < 8)%nat -> (j' < 8)%nat ->
+  mkey x j = mkey x' j' -> x = x' /\ j = j'.
+Proof. exact mkey_injective_l. Qed.
+Print Assumptions struct_members_are_distinct_cells.
+
+Theorem struct_members_disjoint_from_plain_variables : forall x j y, (y < 1000)%nat -> mkey x j <> y.
+Proof. exact mkey_not_plain_l. Qed.
+Print Assumptions struct_members_disjoint_from_plain_variables.
+
+(* `a = b;` on structs means the member-by-member, cell-by-cell assignments a.m_j[i..] = b.m_j[i..] *)
+Theorem struct_copy_is_memberwise_assignment : forall funcs k n x y flds s,
+  exec funcs (S n) (SCopy x y flds) s = exec_list (exec funcs (S (S (S k)))) (copy_stmts x y 0 flds) s.
+Proof. exact struct_copy_desugar_l. Qed.
+Print Assumptions struct_copy_is_memberwise_assignment.
+
+(* a store to one member changes no other member of any struct variable (a copy stays independent) ... *)
+Theorem struct_member_store_is_private : forall x j idx v s s' x' j' idx',
+  (j < 8)%nat -> (j' < 8)%nat -> (x <> x' \/ j <> j') ->
+  m_write (mkey x j) idx v s = (Val tt, s') ->
+  m_read (mkey x' j') idx' s' = (fst (m_read (mkey x' j') idx' s), s').
+Proof. exact struct_member_store_private_l. Qed.
+Print Assumptions struct_member_store_is_private.
+
+(* ... and no plain variable *)
+Theorem struct_member_store_leaves_plain_variables : forall x j idx v s s' y idx',
+  (y < 1000)%nat -> m_write (mkey x j) idx v s = (Val tt, s') ->
+  m_read y idx' s' = (fst (m_read y idx' s), s').
+Proof. exact struct_member_store_leaves_plain_l. Qed.
+Print Assumptions struct_member_store_leaves_plain_variables.
+
+(* a freshly declared member reads 0 at every index inside its shape (and is a bounds error outside) *)
+Theorem struct_member_starts_zeroed : forall t c dims idx s s',
+  m_declare false false t c dims [] s = (Val tt, s') ->
+  fst (m_read c idx s') = Val 0 \/ fst (m_read c idx s') = Fail EBounds.
+Proof. exact member_declared_reads_zero_l. Qed.
+Print Assumptions struct_member_starts_zeroed.
+
+(* non-vacuity for the struct theorems: declare two structs, store, copy, store to the source, read the copy *)
+Example sample_struct_run :
+  let tl := {| base := TLong; uns := false |} in
+  let fl := [ {| fty := tl; fdims := [] |}; {| fty := tl; fdims := [2%nat] |} ] in
+  let p := {| pglobals := []; pfuncs := [];
+              pmain := [ SStruct 1%nat 2%nat fl; SStruct 1%nat 3%nat fl;
+                         SAssign (LVar (mkey 2%nat 0%nat)) None (ENum 5); SAssign (LIdx (mkey 2%nat 1%nat) [ENum 1]) None (ENum 7);
+                         SCopy 3%nat 2%nat fl;
+                         SAssign (LVar (mkey 2%nat 0%nat)) None (ENum 100);
+                         SPrint true [EVar (mkey 3%nat 0%nat); EIdx (mkey 3%nat 1%nat) [ENum 1]; EVar (mkey 2%nat 0%nat); EIdx (mkey 3%nat 1%nat) [ENum 0]];
+                         SPrint true [EIdx (mkey 3%nat 1%nat) [ENum 2]] ] |} in
+  run 100 p = ([OInt 5; OSp; OInt 7; OSp; OInt 100; OSp; OInt 0; ONl], Failed EBounds).
+Proof. vm_compute. reflexivity. Qed.
 
 (* non-vacuity: a program that prints, loops with continue, and then fails *)
 Example sample_run :
